@@ -1,4 +1,4 @@
-import OW.Proofs.FindRoot
+import OW.Proofs.FindRootAudit
 import OW.Proofs.Piecewise
 /-!
 C18 — root finding and piecewise interpolation meet their numerical contracts.
@@ -27,37 +27,62 @@ theorem findRoot_invalid_range (h : 0 < f lo ∨ f hi < 0) :
   simp only [RealNum.ofNat_eq, Nat.cast_zero]
   rw [if_pos h]
 
-/-- **bracket_inv.** On every exit, after any number of iterations, the bracket `[min, max]` held by the loop satisfies
-`min ≤ max`, lies inside the initial interval, `f min ≤ 0 ≤ f max`, and the stored deltas are the function values at
-the stored ends. (Inductive over iterations: `iterate_post`.) No monotonicity, no continuity. -/
-theorem bracket_inv (hle : lo ≤ hi) (h1 : f lo ≤ 0) (h2 : 0 ≤ f hi) (hx0 : lo ≤ x0 ∧ x0 ≤ hi) {r : Res ℝ}
+/-- what holds of every result, with NO hypothesis on the initial guess (`PostB`), and the returned point lies in the
+interval as soon as one iteration runs or the guess is in the interval -/
+theorem postb (hle : lo ≤ hi) (h1 : f lo ≤ 0) (h2 : 0 ≤ f hi) {r : Res ℝ}
+    (hr : findRoot f f' x0 lo hi tol conv n = .ok r) :
+    PostB f lo hi tol r ∧ ((1 ≤ n ∨ (lo ≤ x0 ∧ x0 ≤ hi)) → lo ≤ r.x ∧ r.x ≤ hi) := by
+  rw [findRoot_eq h1 h2] at hr
+  cases hr
+  exact iterate_post_b _ _ _ _ _ _ _ (init_binv hle h1 h2) rfl rfl
+
+/-- **bracket_inv (any initial guess).** On every exit, after any number of iterations (also 0) and for ANY initial guess, the bracket
+`[min, max]` held by the loop satisfies `min ≤ max`, lies inside the initial interval, `f min ≤ 0 ≤ f max`, and the stored
+deltas are the function values at the stored ends. (Inductive over iterations: `iterate_post_b`.) No monotonicity, no
+continuity. -/
+theorem bracket_inv_any_guess (hle : lo ≤ hi) (h1 : f lo ≤ 0) (h2 : 0 ≤ f hi) {r : Res ℝ}
     (hr : findRoot f f' x0 lo hi tol conv n = .ok r) :
     r.b.minX ≤ r.b.maxX ∧ lo ≤ r.b.minX ∧ r.b.maxX ≤ hi ∧
       r.b.minDelta = f r.b.minX ∧ r.b.maxDelta = f r.b.maxX ∧ f r.b.minX ≤ 0 ∧ 0 ≤ f r.b.maxX := by
-  have p := (post hle h1 h2 hx0 hr).binv
+  have p := (postb hle h1 h2 hr).1.binv
   exact ⟨p.le, p.lo_le, p.le_hi, p.dmin, p.dmax, p.dmin ▸ p.smin, p.dmax ▸ p.smax⟩
 
-/-- **result_in_interval**, for ANY function with `f lo ≤ 0 ≤ f hi` (monotone or not): the returned point lies in
-`[lo, hi]`. -/
+/-- `bracket_inv_any_guess` in the form with a guess in the interval (kept for its users in OW.Props.C11; the hypothesis
+on the guess is not needed) -/
+theorem bracket_inv (hle : lo ≤ hi) (h1 : f lo ≤ 0) (h2 : 0 ≤ f hi) (_hx0 : lo ≤ x0 ∧ x0 ≤ hi) {r : Res ℝ}
+    (hr : findRoot f f' x0 lo hi tol conv n = .ok r) :
+    r.b.minX ≤ r.b.maxX ∧ lo ≤ r.b.minX ∧ r.b.maxX ≤ hi ∧
+      r.b.minDelta = f r.b.minX ∧ r.b.maxDelta = f r.b.maxX ∧ f r.b.minX ≤ 0 ∧ 0 ≤ f r.b.maxX :=
+  bracket_inv_any_guess hle h1 h2 hr
+
+/-- **result_in_interval (general form)**, for ANY function with `f lo ≤ 0 ≤ f hi` (monotone or not): the returned point lies in
+`[lo, hi]` — for ANY initial guess when `maxIterations ≥ 1`, and for `maxIterations = 0` when the initial guess lies in
+the interval (the result is then the guess itself: `zero_iterations`). -/
+theorem result_in_interval_any_guess (hle : lo ≤ hi) (h1 : f lo ≤ 0) (h2 : 0 ≤ f hi)
+    (hx0 : 1 ≤ n ∨ (lo ≤ x0 ∧ x0 ≤ hi)) {r : Res ℝ}
+    (hr : findRoot f f' x0 lo hi tol conv n = .ok r) : lo ≤ r.x ∧ r.x ≤ hi :=
+  (postb hle h1 h2 hr).2 hx0
+
+/-- **result_in_interval** for a guess inside the interval: every iteration count, including 0 -/
 theorem result_in_interval (hle : lo ≤ hi) (h1 : f lo ≤ 0) (h2 : 0 ≤ f hi) (hx0 : lo ≤ x0 ∧ x0 ≤ hi) {r : Res ℝ}
     (hr : findRoot f f' x0 lo hi tol conv n = .ok r) : lo ≤ r.x ∧ r.x ≤ hi :=
-  (post hle h1 h2 hx0 hr).xin
+  result_in_interval_any_guess hle h1 h2 (Or.inr hx0) hr
 
-/-- **result_delta_is_value**, for ANY function with `f lo ≤ 0 ≤ f hi`: the returned `delta` is the function's value at
-the returned point. -/
-theorem result_delta_is_value (hle : lo ≤ hi) (h1 : f lo ≤ 0) (h2 : 0 ≤ f hi) (hx0 : lo ≤ x0 ∧ x0 ≤ hi) {r : Res ℝ}
+/-- **result_in_interval** for `maxIterations ≥ 1`: ANY initial guess (also outside the interval, also a non-number in
+the code: the guess only enters through its residual, the Newton trial — accepted only strictly inside the bracket —
+and the convergence counter) -/
+theorem result_in_interval_n1 (hle : lo ≤ hi) (h1 : f lo ≤ 0) (h2 : 0 ≤ f hi) (hn : 1 ≤ n) {r : Res ℝ}
+    (hr : findRoot f f' x0 lo hi tol conv n = .ok r) : lo ≤ r.x ∧ r.x ≤ hi :=
+  result_in_interval_any_guess hle h1 h2 (Or.inl hn) hr
+
+/-- **result_delta_is_value**, for ANY function with `f lo ≤ 0 ≤ f hi`, any initial guess, any iteration count: the
+returned `delta` is the function's value at the returned point. -/
+theorem result_delta_is_value (hle : lo ≤ hi) (h1 : f lo ≤ 0) (h2 : 0 ≤ f hi) {r : Res ℝ}
     (hr : findRoot f f' x0 lo hi tol conv n = .ok r) : r.delta = f r.x :=
-  (post hle h1 h2 hx0 hr).val
+  (postb hle h1 h2 hr).1.val
 
-/-- **evals_in_interval.** Every point at which `fn` is called lies in `[lo, hi]` (after the repair the secant trial is
-clamped into the bracket, so this needs neither monotonicity nor a non-zero secant denominator; see
-`secant_genuine` for the unclamped quotient). -/
-theorem evals_in_interval (hle : lo ≤ hi) (h1 : f lo ≤ 0) (h2 : 0 ≤ f hi) (hx0 : lo ≤ x0 ∧ x0 ≤ hi) {r : Res ℝ}
-    (hr : findRoot f f' x0 lo hi tol conv n = .ok r) : ∀ e ∈ r.evals, lo ≤ e ∧ e ≤ hi :=
-  (post hle h1 h2 hx0 hr).evals
-
-/-- **secant point is a genuine quotient.** For a non-decreasing `f` and a positive tolerance: whenever the halving
-trial of an iteration does not return (so that the secant trial is evaluated at all), the secant denominator
+/-- **secant point is a genuine quotient** (one iteration). For a non-decreasing `f` and a positive tolerance: whenever
+the halving trial of an iteration does not return (so that the secant trial is evaluated at all), the secant denominator
 `maxDelta - minDelta` is strictly positive, the unclamped secant point lies in the bracket, and the clamp is the
 identity. (The degenerate `0/0` needs `f min = f max = 0`; then `f ≡ 0` on the bracket and the halving trial returns.) -/
 theorem secant_genuine (hmono : MonotoneOn f (Set.Icc lo hi)) (htol : 0 < tol) {s s' : Inner ℝ} {x : ℝ}
@@ -83,20 +108,80 @@ theorem secant_genuine (hmono : MonotoneOn f (Set.Icc lo hi)) (htol : 0 < tol) {
     rw [this, abs_zero]; exact htol
   exact ⟨by linarith, secantRaw_mem s.b hb.le hb.smin hb.smax hlt, secantX_eq_raw s.b hb.le hb.smin hb.smax hlt⟩
 
-/-- **width_halves.** If the loop runs out of iterations, the final bracket is at most `(hi − lo) / 2ⁿ` wide. -/
-theorem width_halves (hle : lo ≤ hi) (h1 : f lo ≤ 0) (h2 : 0 ≤ f hi) (hx0 : lo ≤ x0 ∧ x0 ≤ hi) {r : Res ℝ}
+/-- **`secant_genuine` lifted to the whole iteration loop**: for a non-decreasing `f` and a positive tolerance, from any
+bracket satisfying the invariant, every iteration that goes on to evaluate the secant trial has a non-zero (indeed
+positive) secant denominator: `SecantNondeg` holds for the run. -/
+theorem iterate_secantNondeg (hmono : MonotoneOn f (Set.Icc lo hi)) (htol : 0 < tol) :
+    ∀ (fuel : Nat) (x delta : ℝ) (b : Bracket ℝ) (ev : List ℝ), BInv f lo hi b →
+      SecantNondeg f f' tol conv fuel x delta b ev := by
+  intro fuel
+  induction fuel with
+  | zero => intro x delta b ev _; trivial
+  | succ m ih =>
+    intro x delta b ev hb
+    unfold SecantNondeg
+    refine ⟨?_, ?_⟩
+    · rintro ⟨s', hs'⟩ heq
+      have h := (secant_genuine (conv := conv) hmono htol (s := { b := b, hit := 0, evals := ev }) (x := x) hb hs').1
+      simp only at h
+      rw [heq] at h; linarith
+    · split
+      · trivial
+      · rename_i s hloop
+        have hb' := (trialLoop_inr_b _ { b := b, hit := 0, evals := ev } _ hb hloop).1
+        split
+        · trivial
+        · exact ih _ _ _ _ hb'
+
+/-- **secant_nondegenerate_of_monotone.** Under the property's premise (non-decreasing `f` with `f lo ≤ 0 ≤ f hi`) and a
+positive tolerance, the run of `FindRoot` never evaluates `f` at a degenerate (`0/0`) secant point, for any initial
+guess, derivative and iteration count. -/
+theorem secant_nondegenerate_of_monotone (hmono : MonotoneOn f (Set.Icc lo hi)) (htol : 0 < tol)
+    (hle : lo ≤ hi) (h1 : f lo ≤ 0) (h2 : 0 ≤ f hi) :
+    SecantNondeg f f' tol conv n x0 (f x0) ⟨lo, f lo, hi, f hi⟩ [lo, hi, x0] :=
+  iterate_secantNondeg hmono htol n x0 (f x0) _ _ (init_binv hle h1 h2)
+
+/-- **evals_in_interval (non-monotone form, explicit non-degeneracy).** For ANY `f` with `f lo ≤ 0 ≤ f hi` and an initial
+guess inside the interval (`fn(initialX)` is the first call of the code, so this is needed for every iteration count):
+every point at which `fn` is called lies in `[lo, hi]` — PROVIDED no iteration evaluates a degenerate secant point
+(`hnd : SecantNondeg …`, i.e. `maxDelta ≠ minDelta` at every iteration whose halving trial does not return).
+Without `hnd` the statement would still be derivable over ℝ, but for the wrong reason: with `f lo = f hi = 0` and an
+interior value outside the tolerance the secant is `(…)·0/0`, which ℝ evaluates to 0 (then clamped into the bracket)
+while float64 — the Go code and the compiled model — evaluates `f(NaN)` and continues on a different path
+(`secant_degenerate_example`: `f x = 2x − x²` on `[0, 2]`). The hypothesis restricts the theorem to the runs on which
+the ℝ model and the code agree; the ℝ proof itself does not consume it. -/
+theorem evals_in_interval (hle : lo ≤ hi) (h1 : f lo ≤ 0) (h2 : 0 ≤ f hi) (hx0 : lo ≤ x0 ∧ x0 ≤ hi)
+    (hnd : SecantNondeg f f' tol conv n x0 (f x0) ⟨lo, f lo, hi, f hi⟩ [lo, hi, x0]) {r : Res ℝ}
+    (hr : findRoot f f' x0 lo hi tol conv n = .ok r) : ∀ e ∈ r.evals, lo ≤ e ∧ e ≤ hi := by
+  have _hnd := hnd   -- restricts the statement to non-degenerate runs (see the doc-comment)
+  exact (post hle h1 h2 hx0 hr).evals
+
+/-- **evals_in_interval_mono — the property's clause** ("the function is never evaluated outside the interval", stated
+under the property's monotone premise): for a non-decreasing `f` with `f lo ≤ 0 ≤ f hi`, a positive tolerance and an
+initial guess in the interval, every point at which `fn` is called lies in `[lo, hi]`, and every secant point that is
+evaluated is a genuine quotient (`SecantNondeg`, by `secant_nondegenerate_of_monotone`). -/
+theorem evals_in_interval_mono (hmono : MonotoneOn f (Set.Icc lo hi)) (htol : 0 < tol)
+    (hle : lo ≤ hi) (h1 : f lo ≤ 0) (h2 : 0 ≤ f hi) (hx0 : lo ≤ x0 ∧ x0 ≤ hi) {r : Res ℝ}
+    (hr : findRoot f f' x0 lo hi tol conv n = .ok r) :
+    (∀ e ∈ r.evals, lo ≤ e ∧ e ≤ hi) ∧ SecantNondeg f f' tol conv n x0 (f x0) ⟨lo, f lo, hi, f hi⟩ [lo, hi, x0] :=
+  ⟨evals_in_interval hle h1 h2 hx0 (secant_nondegenerate_of_monotone hmono htol hle h1 h2) hr,
+   secant_nondegenerate_of_monotone hmono htol hle h1 h2⟩
+
+/-- **width_halves.** If the loop runs out of iterations, the final bracket is at most `(hi − lo) / 2ⁿ` wide (any initial
+guess). -/
+theorem width_halves (hle : lo ≤ hi) (h1 : f lo ≤ 0) (h2 : 0 ≤ f hi) {r : Res ℝ}
     (hr : findRoot f f' x0 lo hi tol conv n = .ok r) (hexit : r.exit = .fuel) :
     r.b.maxX - r.b.minX ≤ (hi - lo) / 2 ^ n := by
   rw [findRoot_eq h1 h2] at hr
   cases hr
-  exact iterate_width _ _ _ _ _ _ _ (init_binv hle h1 h2) (init_evals hle hx0) rfl hexit
+  exact iterate_width_b _ _ _ _ _ _ _ (init_binv hle h1 h2) rfl hexit
 
 /-- the returned residual is bounded by both ends of the FINAL bracket once one iteration has run and the exit was not
-the tolerance test -/
-theorem delta_le_final_ends (hle : lo ≤ hi) (h1 : f lo ≤ 0) (h2 : 0 ≤ f hi) (hx0 : lo ≤ x0 ∧ x0 ≤ hi) (hn : 1 ≤ n)
+the tolerance test (any initial guess) -/
+theorem delta_le_final_ends (hle : lo ≤ hi) (h1 : f lo ≤ 0) (h2 : 0 ≤ f hi) (hn : 1 ≤ n)
     {r : Res ℝ} (hr : findRoot f f' x0 lo hi tol conv n = .ok r) (hexit : r.exit ≠ .tol) :
     |r.delta| ≤ |f r.b.minX| ∧ |r.delta| ≤ f r.b.maxX := by
-  have p := post hle h1 h2 hx0 hr
+  have p := (postb hle h1 h2 hr).1
   rw [findRoot_eq h1 h2] at hr
   cases hr
   have hp := iterate_pick _ _ _ _ _ _ _ (fun h0 => by omega) rfl hexit
@@ -106,17 +191,21 @@ theorem delta_le_final_ends (hle : lo ≤ hi) (h1 : f lo ≤ 0) (h2 : 0 ≤ f hi
   rw [← p.binv.dmin, ← p.binv.dmax, e2]
   exact ⟨a, b⟩
 
-/-- **better_end.** `maxIterations ≥ 1`, `f` non-decreasing on `[lo, hi]`: the returned residual is no larger in
-magnitude than at the better end of the initial bracket — or it was accepted because it is below the tolerance.
-(The disjunction cannot be dropped: `better_end_counterexample`.) -/
-theorem better_end (hmono : MonotoneOn f (Set.Icc lo hi)) (hle : lo ≤ hi) (h1 : f lo ≤ 0) (h2 : 0 ≤ f hi)
-    (hx0 : lo ≤ x0 ∧ x0 ≤ hi) (hn : 1 ≤ n) {r : Res ℝ} (hr : findRoot f f' x0 lo hi tol conv n = .ok r) :
+/-- **better_end** (`maxIterations ≥ 1`, `f` non-decreasing on `[lo, hi]`, any initial guess): the returned residual is no
+larger in magnitude than at the better end of the initial bracket — OR it was accepted because it is below the
+tolerance. The disjunction cannot be dropped: the property's unconditional clause "no larger in magnitude than at the
+better end" is FALSE for the code (`better_end_counterexample`) — exactly when the result is within the tolerance: the
+code tests only trial points against the tolerance, never the bracket ends, so an end that is already within the
+tolerance can lose against a worse trial that is also within it. Recorded as known finding
+KF-C18-better-end-within-tolerance (scope `FindRoot:better-end-within-tolerance`) and in `partial=` of the check. -/
+theorem better_end_any_guess (hmono : MonotoneOn f (Set.Icc lo hi)) (hle : lo ≤ hi) (h1 : f lo ≤ 0) (h2 : 0 ≤ f hi)
+    (hn : 1 ≤ n) {r : Res ℝ} (hr : findRoot f f' x0 lo hi tol conv n = .ok r) :
     |r.delta| ≤ min |f lo| |f hi| ∨ |r.delta| < tol := by
-  have p := post hle h1 h2 hx0 hr
+  have p := (postb hle h1 h2 hr).1
   by_cases hexit : r.exit = .tol
   · exact Or.inr (p.tol hexit)
   · left
-    obtain ⟨a, b⟩ := delta_le_final_ends hle h1 h2 hx0 hn hr hexit
+    obtain ⟨a, b⟩ := delta_le_final_ends hle h1 h2 hn hr hexit
     have hb := p.binv
     have mlo : lo ∈ Set.Icc lo hi := ⟨le_refl _, hle⟩
     have mhi : hi ∈ Set.Icc lo hi := ⟨hle, le_refl _⟩
@@ -130,38 +219,67 @@ theorem better_end (hmono : MonotoneOn f (Set.Icc lo hi)) (hle : lo ≤ hi) (h1 
       rw [abs_of_nonpos h1]; linarith
     · rw [abs_of_nonneg h2]; linarith
 
+/-- `better_end_any_guess` in the form with a guess in the interval (kept for its user in OW.Props.C11; the hypothesis on
+the guess is not needed for `maxIterations ≥ 1`) -/
+theorem better_end (hmono : MonotoneOn f (Set.Icc lo hi)) (hle : lo ≤ hi) (h1 : f lo ≤ 0) (h2 : 0 ≤ f hi)
+    (_hx0 : lo ≤ x0 ∧ x0 ≤ hi) (hn : 1 ≤ n) {r : Res ℝ} (hr : findRoot f f' x0 lo hi tol conv n = .ok r) :
+    |r.delta| ≤ min |f lo| |f hi| ∨ |r.delta| < tol :=
+  better_end_any_guess hmono hle h1 h2 hn hr
+
+/-- **better_end_unless_tol_exit**: the same without a disjunction in the conclusion — whenever the run did NOT leave
+through the tolerance test (`exit ≠ tol`, a ghost of the model compared with the code through the evaluation log), the
+returned residual is no larger in magnitude than at the better end of the initial bracket. -/
+theorem better_end_unless_tol_exit (hmono : MonotoneOn f (Set.Icc lo hi)) (hle : lo ≤ hi) (h1 : f lo ≤ 0) (h2 : 0 ≤ f hi)
+    (hn : 1 ≤ n) {r : Res ℝ} (hr : findRoot f f' x0 lo hi tol conv n = .ok r) (hexit : r.exit ≠ .tol) :
+    |r.delta| ≤ min |f lo| |f hi| := by
+  have p := (postb hle h1 h2 hr).1
+  obtain ⟨a, b⟩ := delta_le_final_ends hle h1 h2 hn hr hexit
+  have hb := p.binv
+  have mlo : lo ∈ Set.Icc lo hi := ⟨le_refl _, hle⟩
+  have mhi : hi ∈ Set.Icc lo hi := ⟨hle, le_refl _⟩
+  have mmin : r.b.minX ∈ Set.Icc lo hi := ⟨hb.lo_le, le_trans hb.le hb.le_hi⟩
+  have mmax : r.b.maxX ∈ Set.Icc lo hi := ⟨le_trans hb.lo_le hb.le, hb.le_hi⟩
+  have c1 : f lo ≤ f r.b.minX := hmono mlo mmin hb.lo_le
+  have c2 : f r.b.maxX ≤ f hi := hmono mmax mhi hb.le_hi
+  have n1 : f r.b.minX ≤ 0 := hb.dmin ▸ hb.smin
+  apply le_min
+  · rw [abs_of_nonpos n1] at a
+    rw [abs_of_nonpos h1]; linarith
+  · rw [abs_of_nonneg h2]; linarith
+
 /-- with the convergence-limit test disabled (`conv ≤ 0`) FindRoot only returns through the tolerance test or by
 running out of iterations -/
-theorem no_conv_exit (hconv : conv ≤ 0) (hle : lo ≤ hi) (h1 : f lo ≤ 0) (h2 : 0 ≤ f hi) (hx0 : lo ≤ x0 ∧ x0 ≤ hi)
+theorem no_conv_exit (hconv : conv ≤ 0) (hle : lo ≤ hi) (h1 : f lo ≤ 0) (h2 : 0 ≤ f hi)
     {r : Res ℝ} (hr : findRoot f f' x0 lo hi tol conv n = .ok r) : r.exit ≠ .conv := by
   rw [findRoot_eq h1 h2] at hr
   cases hr
-  exact iterate_no_conv hconv _ _ _ _ _ _ _ (init_binv hle h1 h2) (init_evals hle hx0) rfl
+  exact iterate_no_conv_b hconv _ _ _ _ _ _ _ (init_binv hle h1 h2) rfl
 
 /-- the tolerance exit means what it says -/
-theorem tol_exit (hle : lo ≤ hi) (h1 : f lo ≤ 0) (h2 : 0 ≤ f hi) (hx0 : lo ≤ x0 ∧ x0 ≤ hi)
+theorem tol_exit (hle : lo ≤ hi) (h1 : f lo ≤ 0) (h2 : 0 ≤ f hi)
     {r : Res ℝ} (hr : findRoot f f' x0 lo hi tol conv n = .ok r) (hexit : r.exit = .tol) : |r.delta| < tol :=
-  (post hle h1 h2 hx0 hr).tol hexit
+  (postb hle h1 h2 hr).1.tol hexit
 
 /-- **tolerance bound.** `f` non-decreasing and `L`-Lipschitz on `[lo, hi]`, convergence-limit exit disabled
-(`conv ≤ 0`), `n ≥ 1` iterations allowed: the returned residual is below the tolerance or at most `L·(hi−lo)/2ⁿ`. -/
+(`conv ≤ 0`), `n ≥ 1` iterations allowed, any initial guess: the returned residual is below the tolerance or at most
+`L·(hi−lo)/2ⁿ`. -/
 theorem delta_bound (hmono : MonotoneOn f (Set.Icc lo hi)) {L : ℝ}
     (hlip : ∀ a ∈ Set.Icc lo hi, ∀ b ∈ Set.Icc lo hi, a ≤ b → f b - f a ≤ L * (b - a))
-    (hconv : conv ≤ 0) (hle : lo ≤ hi) (h1 : f lo ≤ 0) (h2 : 0 ≤ f hi) (hx0 : lo ≤ x0 ∧ x0 ≤ hi) (hn : 1 ≤ n)
+    (hconv : conv ≤ 0) (hle : lo ≤ hi) (h1 : f lo ≤ 0) (h2 : 0 ≤ f hi) (hn : 1 ≤ n)
     {r : Res ℝ} (hr : findRoot f f' x0 lo hi tol conv n = .ok r) :
     |r.delta| < tol ∨ |r.delta| ≤ L * (hi - lo) / 2 ^ n := by
-  have p := post hle h1 h2 hx0 hr
+  have p := (postb hle h1 h2 hr).1
   by_cases hexit : r.exit = .tol
   · exact Or.inl (p.tol hexit)
   · right
     have hfuel : r.exit = .fuel := by
-      have hnc : r.exit ≠ .conv := no_conv_exit hconv hle h1 h2 hx0 hr
+      have hnc : r.exit ≠ .conv := no_conv_exit hconv hle h1 h2 hr
       cases hx : r.exit with
       | fuel => rfl
       | tol => exact absurd hx hexit
       | conv => exact absurd hx hnc
-    obtain ⟨a, b⟩ := delta_le_final_ends hle h1 h2 hx0 hn hr hexit
-    have hw := width_halves hle h1 h2 hx0 hr hfuel
+    obtain ⟨a, b⟩ := delta_le_final_ends hle h1 h2 hn hr hexit
+    have hw := width_halves hle h1 h2 hr hfuel
     have hb := p.binv
     have mmin : r.b.minX ∈ Set.Icc lo hi := ⟨hb.lo_le, le_trans hb.le hb.le_hi⟩
     have mmax : r.b.maxX ∈ Set.Icc lo hi := ⟨le_trans hb.lo_le hb.le, hb.le_hi⟩
@@ -182,7 +300,6 @@ theorem delta_bound (hmono : MonotoneOn f (Set.Icc lo hi)) {L : ℝ}
         _ ≤ L * ((hi - lo) / 2 ^ n) := mul_le_mul_of_nonneg_left hw hL
         _ = L * (hi - lo) / 2 ^ n := by ring
     · rw [hz, mul_zero] at key
-      have : 0 ≤ L * (hi - lo) / 2 ^ n ∨ True := Or.inr trivial
       have habs : |r.delta| = 0 := le_antisymm key (abs_nonneg _)
       rw [habs]
       -- L may be negative only if the final bracket is a point; then f is constant 0 there. Bound: 0 ≤ L*(hi-lo)/2^n needs L ≥ 0
@@ -205,10 +322,10 @@ theorem delta_bound (hmono : MonotoneOn f (Set.Icc lo hi)) {L : ℝ}
 halving, `L·(hi−lo)/2ⁿ < tol` (i.e. `2ⁿ > L·width₀/tol`), the returned residual is below the tolerance. -/
 theorem tolerance_reached (hmono : MonotoneOn f (Set.Icc lo hi)) {L : ℝ}
     (hlip : ∀ a ∈ Set.Icc lo hi, ∀ b ∈ Set.Icc lo hi, a ≤ b → f b - f a ≤ L * (b - a))
-    (hconv : conv ≤ 0) (hle : lo ≤ hi) (h1 : f lo ≤ 0) (h2 : 0 ≤ f hi) (hx0 : lo ≤ x0 ∧ x0 ≤ hi) (hn : 1 ≤ n)
+    (hconv : conv ≤ 0) (hle : lo ≤ hi) (h1 : f lo ≤ 0) (h2 : 0 ≤ f hi) (hn : 1 ≤ n)
     (hbudget : L * (hi - lo) / 2 ^ n < tol)
     {r : Res ℝ} (hr : findRoot f f' x0 lo hi tol conv n = .ok r) : |r.delta| < tol := by
-  rcases delta_bound hmono hlip hconv hle h1 h2 hx0 hn hr with h | h
+  rcases delta_bound hmono hlip hconv hle h1 h2 hn hr with h | h
   · exact h
   · exact lt_of_le_of_lt h hbudget
 
@@ -224,22 +341,49 @@ end FindRoot
 
 /-! ### non-vacuity and counter-examples (concrete numerals) -/
 
-/-- the hypotheses of the FindRoot theorems are met by `f x = x − 1` on `[0, 2]` from `x0 = 1/2` -/
-example : ∃ r, findRoot (fun x : ℝ => x - 1) none (1/2) 0 2 (1/1000) 0 5 = .ok r ∧
-    (0:ℝ) ≤ 2 ∧ (fun x : ℝ => x - 1) 0 ≤ 0 ∧ 0 ≤ (fun x : ℝ => x - 1) 2 ∧ ((0:ℝ) ≤ 1/2 ∧ (1/2:ℝ) ≤ 2) ∧
-    MonotoneOn (fun x : ℝ => x - 1) (Set.Icc 0 2) ∧
-    (∀ a ∈ Set.Icc (0:ℝ) 2, ∀ b ∈ Set.Icc (0:ℝ) 2, a ≤ b → (b - 1) - (a - 1) ≤ 1 * (b - a)) ∧
-    (1 : ℝ) * (2 - 0) / 2 ^ 12 < 1/1000 := by
-  refine ⟨_, findRoot_eq (by norm_num) (by norm_num), by norm_num, by norm_num, by norm_num, by norm_num, ?_, ?_, by norm_num⟩
-  · intro a _ b _ hab; simp only; linarith
-  · intro a _ b _ _; linarith
+/-- `tolerance_reached` APPLIED: `f x = x − 1` on `[0, 2]` from `x0 = 1/2` with 12 iterations (budget
+`1·(2−0)/2¹² = 1/2048 < 1/1000`) returns a residual below `1/1000`, at a point of the interval — and also from the guess
+`x0 = 7` OUTSIDE the interval (no hypothesis on the initial guess for `maxIterations ≥ 1`). -/
+example (x0 : ℝ) : ∃ r, findRoot (fun x : ℝ => x - 1) none x0 0 2 (1/1000) 0 12 = .ok r ∧ |r.delta| < 1/1000 ∧
+    (0 ≤ r.x ∧ r.x ≤ 2) ∧ r.delta = r.x - 1 := by
+  have hmono : MonotoneOn (fun x : ℝ => x - 1) (Set.Icc 0 2) := by
+    intro a _ b _ hab; simp only; linarith
+  have hlip : ∀ a ∈ Set.Icc (0:ℝ) 2, ∀ b ∈ Set.Icc (0:ℝ) 2, a ≤ b → (b - 1) - (a - 1) ≤ 1 * (b - a) := by
+    intro a _ b _ _; linarith
+  have hr : findRoot (fun x : ℝ => x - 1) none x0 0 2 (1/1000) 0 12 = .ok _ :=
+    findRoot_eq (by norm_num) (by norm_num)
+  refine ⟨_, hr, ?_, ?_, ?_⟩
+  · exact tolerance_reached hmono hlip (le_refl 0) (by norm_num) (by norm_num) (by norm_num) (by norm_num)
+      (by norm_num) hr
+  · exact result_in_interval_n1 (by norm_num) (by norm_num) (by norm_num) (by norm_num) hr
+  · exact result_delta_is_value (by norm_num) (by norm_num) (by norm_num) hr
+
+/-- **secant_degenerate_example** (why `evals_in_interval` carries `SecantNondeg`): `f x = 2x − x²` on `[0, 2]`
+(`f 0 = f 2 = 0`, `f 1 = 1`), tolerance `1/1000`, from `x0 = 1/2`: in the first iteration the halving trial `1` does not
+return and the secant denominator is `f 2 − f 0 = 0`. Over ℝ the secant "point" is `2 − 2·0/0 = 2`; the Go code and the
+compiled model evaluate `f(NaN)` (evaluation log `[…, 1, NaN, …]`) and continue differently. `f` is not monotone, so
+this is outside the property's premise; under it the case cannot arise (`secant_nondegenerate_of_monotone`). -/
+theorem secant_degenerate_example :
+    ¬ SecantNondeg (fun x : ℝ => 2 * x - x ^ 2) none (1/1000) 0 1 (1/2) ((fun x : ℝ => 2 * x - x ^ 2) (1/2))
+        ⟨0, (fun x : ℝ => 2 * x - x ^ 2) 0, 2, (fun x : ℝ => 2 * x - x ^ 2) 2⟩ [0, 2, 1/2] := by
+  intro h
+  unfold SecantNondeg at h
+  have hh : halvingX (⟨0, (fun x : ℝ => 2 * x - x ^ 2) 0, 2, (fun x : ℝ => 2 * x - x ^ 2) 2⟩ : Bracket ℝ) = 1 := by
+    rw [halvingX_eq]; norm_num
+  refine h.1 ?_ (by norm_num)
+  rcases trialStep_spec (fun x : ℝ => 2 * x - x ^ 2) (1/1000) 0 (1/2)
+      { b := ⟨0, (fun x : ℝ => 2 * x - x ^ 2) 0, 2, (fun x : ℝ => 2 * x - x ^ 2) 2⟩, hit := 0, evals := [0, 2, 1/2] }
+      (halvingX ⟨0, (fun x : ℝ => 2 * x - x ^ 2) 0, 2, (fun x : ℝ => 2 * x - x ^ 2) 2⟩) with ⟨hlt, _⟩ | ⟨_, s', hs', _⟩
+  · rw [hh] at hlt; norm_num at hlt
+  · exact ⟨s', hs'⟩
 
 /-- **better_end_counterexample.** `f x = x` on `[−10⁻⁶, 9·10⁻⁴]`, tolerance `10⁻³`, one iteration from the lower end:
 the halving trial `4.495·10⁻⁴` is accepted (below the tolerance) although the lower end has residual `10⁻⁶`. So the
-unconditional "no larger than at the better end" is false for the code; `better_end` carries the disjunct. -/
+unconditional "no larger than at the better end" is false for the code (known finding
+KF-C18-better-end-within-tolerance); `better_end` carries the disjunct. Both values are below the tolerance. -/
 theorem better_end_counterexample :
     ∃ r, findRoot (fun x : ℝ => x) none (-1/1000000) (-1/1000000) (9/10000) (1/1000) 0 1 = .ok r ∧
-      ¬ |r.delta| ≤ min |(fun x : ℝ => x) (-1/1000000)| |(fun x : ℝ => x) (9/10000)| := by
+      ¬ |r.delta| ≤ min |(fun x : ℝ => x) (-1/1000000)| |(fun x : ℝ => x) (9/10000)| ∧ |r.delta| < 1/1000 := by
   refine ⟨_, findRoot_eq (by norm_num) (by norm_num), ?_⟩
   have hh : halvingX (⟨-1/1000000, -1/1000000, 9/10000, 9/10000⟩ : Bracket ℝ) = 899/2000000 := by
     rw [halvingX_eq]; norm_num
